@@ -173,16 +173,19 @@ def trend_obligations():
                TREND_THEOREMS, TREND_IMPORTS)
 
 
-TREND_METHODS_FUNCS = ["Trend.predict", "Trend.jacobian"]
+TREND_METHODS_FUNCS = ["Trend.predict", "Trend.jacobian", "Trend.fit",
+                       (os.path.join("verde", "coordinates.py"), "get_region")]
 TREND_METHODS_THEOREMS = ["src_Trend_predict_eq", "src_Trend_predict_unfitted", "src_Trend_jacobian_eq",
-                          "src_Trend_jacobian_shapes"]
+                          "src_Trend_jacobian_shapes", "src_Trend_fit_eq", "src_Trend_fit_rejects"]
 TREND_METHODS_IMPORTS = "From Verde Require Import Model.Trend Proofs.TrendProofs Proofs.PyLiteBridge."
 
 
 def c03_obligations():
     """verde/trend.py: polynomial_power_combinations (as trend_obligations) and, in the same generated file,
     Trend.predict / Trend.jacobian against trend_predict / trend_jacobian of Model/Trend.v, with the callee
-    polynomial_power_combinations instantiated by its serialised source (harness/pylite_trend_methods.v.tmpl)"""
+    polynomial_power_combinations instantiated by its serialised source, and the glue of Trend.fit (its callees
+    Trend.jacobian and get_region instantiated by their serialised sources, check_fit_input and least_squares
+    arbitrary functions) (harness/pylite_trend_methods.v.tmpl)"""
     return tie("TrendSrc", os.path.join("verde", "trend.py"), TREND_FUNCS + TREND_METHODS_FUNCS,
                ["pylite_trend.v.tmpl", "pylite_trend_methods.v.tmpl"], TREND_THEOREMS + TREND_METHODS_THEOREMS,
                TREND_METHODS_IMPORTS)
